@@ -319,10 +319,6 @@ class ImplGen(Gen):
             feats.add('self-dyn')
         rhs = [None, sx.tid('Self'), other, sx.tref(other), sx.tref(sx.tid('Self')), this_elem,
                sx.tgen('Vec', sx.tid('Self'))][rhs_kind]
-        if rhs_kind == 4 and this == dyn2:
-            # `&Self` with a bare several-bound trait object as the self type is the recorded C16 finding (`& dyn A + Send`
-            # after the textual expansion of `Self`): exercised by its own seed in the C16 oracle, kept out of the L1 cases
-            rhs = sx.tref(other)
         if self.chance(0.1):
             rhs = self.pick([dyn2, dyn1, sx.tref(dyn1), sx.tref(sx.tparen(dyn2)), sx.tdyn([sx.tb_trait(['A']), sx.tb_lt('static'), sx.tb_trait(['Sync'])])])
             feats.add('rhs-dyn')
